@@ -99,7 +99,10 @@ def run_case(cs, ctx):
         return
     allowed = {os.path.join(outdir, n) for n in want} | {outdir, os.path.dirname(outdir)}
     case['second_run_into_existing_directory'] = rerun
-    bad = [e for e in res['fs'] if e[0] != 'open_r' and e[1] not in allowed]
+    # transient files inside the output directory (write-then-rename) are the implementation's business: the
+    # final directory listing is checked above; what must not happen is a write outside the requested directory
+    root = os.path.dirname(outdir) + os.sep
+    bad = [e for e in res['fs'] if e[0] != 'open_r' and e[1] not in allowed and not str(e[1]).startswith(root)]
     ctx.cnt('fs_events_audited', len(res['fs']))
     if bad:
         ctx.finding(en.F('C08', 'fs_audit', 'the run wrote outside the requested files: %s' % bad[:4]), case)
